@@ -106,6 +106,31 @@ def run_c11(ctx):
         if len(pairs) >= 50:
             ctx.nontriv("race:" + sess[1])
         ctx.traces_validated += 1
+    # ---- retransmissions: the SAME request sent repeatedly (same bytes, same socket, alone in its batch);
+    # every reply is signed when IT is answered, so its midpoint can never precede the moment that copy was sent
+    sessions = [["serve new %d 0 0 0 %s" % (b, srvmod.SEED), "serve resend %d %d %d" % (k, gap, classic), "serve drop"]
+                for b, k, gap, classic in ((8, 6, 120, 1), (8, 6, 120, 0), (1, 4, 300, 1), (64, 3, 1100, 0))]
+    for sess, out in zip(sessions, vlib.run_sessions(vlib.HARNESS, sessions, "c11resend", shards=4)):
+        ctx.evaluations += 1
+        classic = sess[1].endswith(" 1")
+        rep = {"cmd": "resend", "lines": sess, "out": [o[:1500] for o in out]}
+        o = out[1]
+        if not o.startswith("OK") or "RESEND=" not in o:
+            ctx.violation("property", "server did not answer retransmissions of one request normally: " + o[:80], rep); continue
+        t_end = int(o.split("END=")[1].split()[0])
+        items = [x.split(":") for x in o.split("RESEND=")[1].split(",") if x]
+        if any(b in ("none", "unparsed") for _, b in items):
+            ctx.violation("property", "a retransmitted request got no (parsable) reply: %s" % items, rep); continue
+        unit = 1 if classic else 10**6
+        stale = [(int(a), int(b)) for a, b in items if int(b) < int(a) // unit]
+        late = [(int(a), int(b)) for a, b in items if int(b) > t_end // unit]
+        if stale:
+            a, b = stale[0]
+            ctx.violation("property", "%d of %d replies to retransmissions of one request carry a midpoint earlier than the moment that copy was sent (sent %d us, MIDP %d %s): the reply was not signed when it was answered" % (len(stale), len(items), a, b, "us" if classic else "s"), rep); continue
+        if late:
+            ctx.violation("property", "a reply carries a midpoint later than the harness clock after it was received", rep); continue
+        ctx.nontriv("resend:" + sess[1])
+        ctx.traces_validated += 1
     proof_verdict(ctx)
 
 
